@@ -13,6 +13,7 @@ import SA.Proofs.DnsServerClient
 import SA.Model.DnsServerSites
 import SA.Proofs.DnsStray
 import SA.Props.C13
+import SA.Gen.PkgVars
 
 namespace SA.Props.C12
 open SA.Go SA.Go.Res SA.DnsServer
@@ -312,3 +313,16 @@ end SA.Props.C12
 #print axioms SA.Props.C12.C12_witness_close_before_refusal
 #print axioms SA.Props.C12.C12_site_coverage
 #print axioms SA.Props.C12.C12_reserved_commands_present
+
+namespace SA.PkgState
+/-- **no_hidden_process_state**: the models of this property are functions of their arguments and of the objects they are
+    handed; the packages they model keep no package-level variables besides these (regenerated inventory: error
+    sentinels, tables, compiled patterns, the two session time-outs).  A new package-level variable — a counter, a cache, a
+    scratch buffer, a shared map, a registry — would make later calls depend on earlier ones, or concurrent calls on each
+    other, outside anything a per-call comparison of model and code can see. -/
+theorem C12_no_hidden_process_state :
+    Gen.pkgVarNames_dns = ["ConnectionTimeout", "ErrConnectionFailed", "ErrHandshakeNotCompleted", "OldConnectionTimeout"] ∧
+    Gen.pkgVarNames_dnscommands = ["BadCodec", "BadCommand", "BadConn", "BadErrors", "BadFrag", "BadIp", "BadLen", "BadServerFull", "BadUser", "BadVersion", "CmdError", "CmdLogin", "CmdPacket", "CmdSetOptions", "CmdTestDownstreamEncoder", "CmdTestDownstreamFragmentSize", "CmdTestMultiQuery", "CmdTestUpstreamEncoder", "CmdVersion", "Commands", "Digits", "ErrTimeout", "LazyModeOk", "NoData", "VersionNotOk", "VersionOk"] := by decide
+end SA.PkgState
+
+#print axioms SA.PkgState.C12_no_hidden_process_state
